@@ -637,7 +637,7 @@ fn case(layout: &str, root: &str, ops: &[LOp]) -> Value {
 
 /// Run the live part and fold its numbers into the C13 report. `budget_s` caps the wall time of the exploration.
 pub fn run_part(ctx: &Ctx, r: &mut Report, budget_s: f64) {
-    let depth = ctx.pick(3usize, 5usize);
+    let depth = ctx.depth(3usize, 5usize);
     let with_anchor = true;
     let t0 = std::time::Instant::now();
     let ls = layouts();
